@@ -241,7 +241,7 @@ func runC17(j *check.Job) *check.Result {
 			flags = append(flags, "DISABLE_NOTHING_KNOWN", "disable_session_state")
 		}
 		for hi, h := range c17Histories {
-			hr := s1.RunHistory(f, h, flags, false)
+			hr := s1.RunHistoryOpt(f, h, flags, false, true)
 			res.Executions++
 			res.Transitions += len(h)
 			res.Steps += hr.Steps
